@@ -151,6 +151,15 @@ def _bufsize(bs):
     return bs
 
 
+def _key3(p0, acc, b):
+    """Shard key: (pre kind, accumulator); chains starting with a Slice (p0 == 3,
+    by far the most paths) are split further by the slice length b."""
+    ai = acc - (1 if acc > 1 else 0) - (1 if acc > 5 else 0)
+    if p0 == 3:
+        return 5 * B.NA + ai * (B.SB + 1) + b
+    return (p0 if p0 < 3 else p0 - 1) * B.NA + ai
+
+
 def check_three_drivers(npre: int, p0: int, p1: int, a: int, b: int, c: int, acc: int,
                         post: bool, bs: int, xs: List[int]) -> bool:
     """
@@ -161,7 +170,7 @@ def check_three_drivers(npre: int, p0: int, p1: int, a: int, b: int, c: int, acc
     pre: 1 <= bs <= B.BUF + 2
     pre: len(xs) <= B.FLOW
     pre: npre < 2 or p0 == 3 or p1 == 3
-    pre: h.in_shard(p0 * B.NA + acc - (1 if acc > 1 else 0) - (1 if acc > 5 else 0))
+    pre: h.in_shard(_key3(p0, acc, b))
     post: _
     """
     pres = [p0, p1][:npre]
@@ -379,13 +388,13 @@ def check_adapters(adapter: int, ek: int, name: int, x: int) -> bool:
 
 
 CONDITIONS = [
-    dict(fn="check_three_drivers", shards=(24, 30), budget=(90, 1500),
+    dict(fn="check_three_drivers", shards=(32, 45), budget=(150, 1500),
          smoke=["check_three_drivers(1, 3, 0, 1, 2, 1, 0, True, 2, [1, 2, 3])",
                 "check_three_drivers(1, 1, 0, 0, 0, 1, 2, False, 1, [4, 5])",
                 "check_three_drivers(0, 0, 0, 0, 0, 1, 4, True, 3, [0, 2])",
                 "check_three_drivers(1, 4, 0, 0, 0, 1, 6, False, 1, [4, -5])",
                 "check_three_drivers(1, 5, 0, 0, 0, 1, 3, False, 1, [4, 5])"]),
-    dict(fn="check_variance_drivers", shards=(10, 10), budget=(80, 900),
+    dict(fn="check_variance_drivers", shards=(10, 10), budget=(200, 900),
          smoke=["check_variance_drivers(1, 2, 0, 0, 3, 0, 2, 4, 1, False)", "check_variance_drivers(0, 0, 0, 0, 0, 0, 2, 4, 1, True)"]),
     dict(fn="check_fill_seq", shards=(12, 12), budget=(70, 900),
          smoke=["check_fill_seq(2, 3, 2, 1, 2, 1, [1, 2, 3])"]),
